@@ -1182,7 +1182,10 @@ class Interp:
         key = self.contract_key(fi)
         if not force_inline and key in self.contracts and (key != self.verifying or key in self.active_calls) and not (self.contracts[key].callers_inline and key not in self.active_calls):
             from . import modular
-            return modular.apply_contract(self, self.contracts[key], fi, args, kwargs)
+            c = self.contracts[key]
+            if c.apply_fn is not None:
+                return c.apply_fn(self, c, fi, args, kwargs)
+            return modular.apply_contract(self, c, fi, args, kwargs)
         if self.call_depth > self.MAX_INLINE_DEPTH:
             raise OutOfSubset(f"inlining depth exceeded at {fi.qualname} (recursion without contract?)")
         if key != self.verifying:
